@@ -89,7 +89,7 @@ def run_group(name, crate_dir, patterns, jobs, harness_timeout_s, wall_cap_s, lo
     cmd = ["cargo", "kani", "-Z", "stubbing", "-Z", "unstable-options",
            "--target-dir", tdir, "-j", str(jobs), "--output-format", "terse",
            "--harness-timeout", "%ds" % harness_timeout_s,
-           "--export-json", out_json]
+           "--export-json", out_json, "--no-assertion-reach-checks"]
     if exact:
         cmd.append("--exact")
     for p in patterns:
